@@ -72,6 +72,19 @@ fn mutants(s: &str) -> Vec<String> {
             }
         }
     }
+    // a separator is `/` and nothing else: the same text with a backslash in place of one or of
+    // every separator is another path
+    {
+        let seps: Vec<usize> = (0..n).filter(|i| cs[*i] == '/').collect();
+        if !seps.is_empty() {
+            for i in [seps[0], seps[seps.len() / 2], seps[seps.len() - 1]] {
+                let mut v = cs.clone();
+                v[i] = '\\';
+                out.push(join(v));
+            }
+            out.push(s.replace('/', "\\"));
+        }
+    }
     out.push(format!("{}a", s));
     out.push(format!("a{}", s));
     // the text as one *line* of a longer path (anchors must be text anchors, not line anchors)
